@@ -730,4 +730,48 @@ example : PrmMismatch Ex.jId ∧ Probing Ex.jId :=
 example : (Ex.jId.quiet 10).map (fun r => (r.1.p.isRunning, r.2)) =
     some (false, [.online, .offline, .online, .offline]) := by decide +kernel
 
+/-- The two-peripheral example is a start-up state (`NStart`), and a history with faults on both slots, a
+power cycle, a fault report and user calls is well-formed: the hypotheses of `multi_live_after_any_history`
+are satisfiable; evaluated, the history followed by 40 fault-free turns has both peripherals running. -/
+theorem Ex.nstart2 : NStart Ex.J2 [Dp.Ex.p7, Ex.p9] 1 where
+  slots := rfl
+  op := rfl
+  len := rfl
+  n256 := by decide
+  pos := by decide
+  fpok := Dp.Ex.fp_ok
+  cycle := rfl
+  good := by
+    intro l hl
+    match l, hl with
+    | 0, _ => exact ⟨Ex.good, Ex.initial⟩
+    | 1, _ => exact ⟨Ex.good9, ⟨rfl, rfl, rfl, rfl, rfl⟩⟩
+  addr := Ex.ngood2.addr
+  distinct := Ex.ngood2.distinct
+  gc := rfl
+
+def Ex.hist2 : List NEnv :=
+  [.turn 1000 none .ok, .turn 4000 none .ok, .turn 7000 none .lossRep, .turn 10000 (some 1) .lossReq, .power 0,
+   .fault 1 [0x42, 0x01], .diagReq 0, .turn 13000 none .ok, .turn 16000 (some 0) .lossRep, .inputs 0 [0x77]]
+
+example : ∀ e ∈ Ex.hist2, e.WellFormed := by
+  intro e he
+  simp only [Ex.hist2, List.mem_cons, List.mem_nil_iff, or_false] at he
+  rcases he with rfl | rfl | rfl | rfl | rfl | rfl | rfl | rfl | rfl | rfl <;>
+    first
+    | trivial
+    | exact ⟨by unfold timeB; constructor <;> decide, by intro t h; cases h⟩
+
+example : ((Ex.J2.mrun Ex.hist2).bind fun J =>
+      (J.quietTurns ((List.range 40).map fun (i : Nat) => ((20000 + 3000 * i : Nat) : Int))).map fun r =>
+        ((List.range 2).map fun l => (r.1.m.peripheral? l).map Peripheral.isRunning)) = some [some true, some true] := by
+  decide +kernel
+
+/-- A silent slave #9 next to a healthy #7 (`runF`, retry limit 1): evaluated, after 12 turns slot 1 is
+offline, slot 0 running. -/
+example : ((Ex.J2.runF ((List.range 16).map fun (i : Nat) =>
+      (((1000 + 3000 * i : Nat) : Int), fun (a : UInt8) => if a = 9 then Delivery.lossReq else Delivery.ok))).map fun J =>
+      (List.range 2).map fun l => (J.m.peripheral? l).map fun p => (p.isLive, p.isRunning)) =
+    some [some (true, true), some (false, false)] := by decide +kernel
+
 end PV.C07
